@@ -166,6 +166,7 @@ pub struct Model {
     /// every job id ever observed (including forgotten ones and ones from before a crash)
     pub job_ids_seen: BTreeSet<u32>,
     pub worker_ids_seen: BTreeSet<u32>,
+    pub queue_ids_seen: BTreeSet<u32>,
     pub connected_workers: BTreeSet<u32>,
     /// Workers lost in the current step with the reason, and the tasks that were running there
     pub lost_this_step: Vec<(u32, LostWorkerReason, Vec<(TaskKey, u32)>)>,
@@ -611,8 +612,17 @@ impl Model {
                     }
                 }
             }
-            EventPayload::AllocationQueueCreated(..)
-            | EventPayload::AllocationQueueRemoved(..)
+            EventPayload::AllocationQueueCreated(id, _) => {
+                if !self.queue_ids_seen.insert(*id) {
+                    bad(
+                        "C11",
+                        "queue-id-reused",
+                        "".into(),
+                        format!("allocation queue id {id} issued twice"),
+                    );
+                }
+            }
+            EventPayload::AllocationQueueRemoved(..)
             | EventPayload::AllocationQueued { .. }
             | EventPayload::AllocationStarted(..)
             | EventPayload::AllocationFinished(..) => {}
